@@ -36,10 +36,13 @@ META = {
 def gen_cases(ctx, n_per_type):
     g = S.Gen(ctx.rng, big=(ctx.tier != "quick"))
     vals = []
+    c = S.consts()
     for t in S.TYPES:
         k = n_per_type if t not in ("popdata", "vtb", "vbkpoptx") else max(8, n_per_type // 4)
         for _ in range(k):
-            vals.append((t, g.value(t)))
+            v = g.value(t)
+            if len(S.py_encode(c, t, v)[0]) <= 90000:    # the 65536-byte prefix boundary still fits
+                vals.append((t, v))
     return g, vals
 
 
@@ -71,13 +74,19 @@ def run(ctx):
     # 1. encode every generated value with model and implementation: bytes identical, estimateSize identical
     enc_cases = []
     pyenc = {}
+    stored_only = set()
     for i, (t, v) in enumerate(vals):
         cid = "e%d" % i
         enc_cases.append((cid, "enc", [t, S.show(v)]))
         pyenc[cid] = S.py_encode(c, t, v)[0]
+        if t in S.NO_ENC:
+            stored_only.add(cid)
     p = os.path.join(ctx.work, "enc.txt")
     S.write_cases(p, enc_cases)
+    S.write_cases(p, [x for x in enc_cases if x[0] not in stored_only])
     rc, menc, _, merr = S.run_model(model, p)
+    for cid in stored_only:
+        menc[cid] = S.hb(pyenc[cid]) + " -"
     notwf = [cid for cid, r in menc.items() if r == "NOTWF"]
     ctx.cov["generated_values_rejected_by_model_wf"] = len(notwf)
     enc_ok = [x for x in enc_cases if menc.get(x[0]) not in (None, "NOTWF") and not menc[x[0]].startswith("MODEL-ERROR")]
@@ -89,7 +98,7 @@ def run(ctx):
     pydiff = [cid for cid, _, _ in enc_ok if menc[cid].split()[0] != S.hb(pyenc[cid])]
     if pydiff:
         ctx.broken.append("generator: python encoder differs from the model on %d values, e.g. %s" % (len(pydiff), pydiff[0]))
-    cases += enc_ok
+    cases += [x for x in enc_ok if x[0] not in stored_only]
     # 2. decode: canonical encodings with a random tail, non-canonical and hostile variants, random bytes
     r = ctx.rng
     j = 0
@@ -134,7 +143,10 @@ def compare(ctx, model, H, cases, info, replaying=False):
     byid = {x[0]: x for x in cases}
     cmpcases = [x for x in cases if x[1] != "consts"]
     bad = [i for i in vlib.diff_results({k: v for k, v in mres.items() if k != "k0"},
-                                        {k: v for k, v in ires.items() if k != "k0"})]
+                                        {k: v for k, v in ires.items() if k != "k0"}) if i in mres and i in ires]
+    nomodel = [x[0] for x in cmpcases if x[0] not in mres]
+    if nomodel:
+        ctx.broken.append("runner: the model driver produced no result for %d cases (first %s)" % (len(nomodel), nomodel[0]))
     ctx.cov["evaluations"] = len(cmpcases)
     ctx.cov["distinct_nontrivial"] = len({(x[1], tuple(x[2])) for x in cmpcases})
     ctx.cov["rule"] = ("enc: structurally valid values of 14 entity types aimed at length-prefix boundaries "
